@@ -1,5 +1,9 @@
 """C19 — bytes in mixed output decode with the template encoding; str() is safe.
 
+Part F (conversion histories): the statement holds for EVERY insertion, so sequences of insertions in
+one process (equal-but-differently-printing values, mutated / recycled objects, whole families in one
+rendering) are judged step by step against ``str(value)``.
+
 Monitor: every case renders ONE compiled template twice, once with the text ``s`` and once
 with ``s.encode(encoding)`` in its place (differential), and compares type and value of the
 two results; non-string values are rendered and compared with ``str(value)``.  Wrappers on
@@ -23,9 +27,18 @@ RULE = ('A: every single code point 0..255 + notable BMP/astral points x every i
         'items, batch, else, if/elif/else, unless, with, let, try body/else/handler/finally, sub-template, '
         'raise message) x 4 body shapes x bare/wrapped x 5 encodings x sample texts; C: seeded nested '
         'templates (depth<=3) x seeded texts; D: non-string values (builtins, classes, exceptions with 0..3 '
-        'args, custom __str__) x insertion sites. A case = (part, syntax, form, encoding, template, text '
-        'or value recipe); it is non-trivial when the rendering has >= 2 pieces and the inserted value is '
-        'non-empty; distinct = distinct such tuples')
+        'args, custom __str__) x insertion sites; F: conversion HISTORIES in one process over shared compiled '
+        'templates: families of values that compare equal but print differently (0.0/-0.0, 0/False/0j/Decimal '
+        'spellings, 1/True/1.0/enum members, float/int subclasses with a unit, equal tuples/frozensets/ranges, '
+        'aware datetimes, objects with __eq__ and own text, exceptions with equal arguments) x every value site '
+        'x orders (forward, reverse, twice, there-and-back, every pair a b a) x same/fresh objects, whole '
+        'families in ONE rendering (dtml-in over the list, variables side by side; 14 sequence sites), objects '
+        'mutated between insertions, fresh objects after dropped ones, and seeded walks across families, sites '
+        'and encodings; every step is judged against str(value) taken at that moment. A case = (part, syntax, '
+        'form, encoding, template, text or value recipe) or one history (family, flavour, steps); it is '
+        'non-trivial when the rendering has >= 2 pieces and the inserted value is non-empty (a history: when '
+        'at least one step inserts a value that an earlier step could be confused with); distinct = distinct '
+        'such tuples')
 ASSUMPTIONS = [
     'bytes are always produced as s.encode(template encoding); encoding=None means the UTF-8 default',
     'a rendering with fewer than 2 (flattened, non-empty) pieces is only counted, never judged',
@@ -35,6 +48,12 @@ ASSUMPTIONS = [
     'text / str(args)); a bytes argument may appear decoded with the template encoding or as str(bytes)',
     'a __str__ returning bytes may raise or be inserted decoded; a __str__ returning a non-string or '
     'raising is only counted (result must still be text when it does not raise)',
+    'histories (part F): the accepted text of a step is str(value) (exceptions: message forms as above) '
+    'computed immediately before the rendering; values never have a __str__ that changes by itself, objects '
+    'change only through the explicit mutation steps of the plan; a violation replays its own sequence only '
+    '(state left by earlier sequences of the shard is not part of the case)',
+    'one rendering of several values: the result must be head + one accepted item text per value, in list '
+    'order (reverse order for the reverse option) + tail',
     'modifiers other than html_quote (upper, url_quote, sql_quote, size, ...) applied to bytes are '
     'recorded in an informational table and not judged (statement: "plainly, HTML-quoted")',
 ]
@@ -204,10 +223,16 @@ def make_reach():
     r = Reach()
     r.watch('join_unicode', _DT.join_unicode)
     r.watch('render_blocks', _DT.render_blocks)
-    r.watch('render_blocks_', _DT.render_blocks_)
+    # private helpers: a harmless refactoring may rename them -- diagnosis only when absent
+    r.absent = []
+    for label, mod in (('render_blocks_', _DT), ('_exception_str', US)):
+        fn = getattr(mod, label, None)
+        if fn is None or not hasattr(fn, '__code__'):
+            r.absent.append(label)
+        else:
+            r.watch(label, fn)
     r.watch('html_quote', HQ.html_quote)
     r.watch('ustr', US.ustr)
-    r.watch('_exception_str', US._exception_str)
     r.watch('String.parse_block', DT_String.String.parse_block)
     r.watch('InClass.renderwb', DT_In.InClass.renderwb)
     r.watch('InClass.renderwob', DT_In.InClass.renderwob)
@@ -426,6 +451,22 @@ def site_template(site, enc):
     return t
 
 
+def site_namespace(site, v):
+    ns = {'nsmap': {'w': 'W'}}
+    via = site['via']
+    if via == 'x':
+        ns['x'] = v
+    elif via == 'thunk':
+        ns['f'] = lambda v=v: v
+    elif via == 'item1':
+        ns['seq'] = [v]
+    elif via == 'item2':
+        ns['seq'] = [v, v]
+    elif via == 'boom':
+        ns['boom'] = U.Boom(v)
+    return ns
+
+
 def expected_renderings(site, accept):
     out = set()
     for a in accept:
@@ -466,18 +507,7 @@ def value_case(ctx, mon, site, enc, recipe, sample=False):
         return
     if site['via'] == 'boom' and not isinstance(v, Exception):
         return
-    ns = {'nsmap': {'w': 'W'}}
-    via = site['via']
-    if via == 'x':
-        ns['x'] = v
-    elif via == 'thunk':
-        ns['f'] = lambda v=v: v
-    elif via == 'item1':
-        ns['seq'] = [v]
-    elif via == 'item2':
-        ns['seq'] = [v, v]
-    elif via == 'boom':
-        ns['boom'] = U.Boom(v)
+    ns = site_namespace(site, v)
     tmpl = site_template(site, enc)
     ctx.case(('value', site['key'], enc, recipe), spec['accept'] is not None)
     ctx.table('value kind x site', '%s|%s' % (spec['kind'] if spec['kind'] != 'exc' else
@@ -518,6 +548,270 @@ def value_case(ctx, mon, site, enc, recipe, sample=False):
         ctx.table('misbehaving __str__ (not judged beyond text-ness)', '%s: inserted decoded' % spec['kind'])
     if sample:
         ctx.sample({'source': site['src'], 'value': ascii(v)[:80], 'encoding': enc, 'render': r})
+
+
+# ---------------------------------------------------------------- conversion histories (part F)
+def _seq_site(key, syntax, head, open_, item_src, item, close, tail):
+    """One rendering that inserts a whole list of values.  `item` = pieces of one item's output:
+    literal text, 0 = the value's text, 1 = the value's text HTML-quoted."""
+    return {'key': key, 'syntax': syntax, 'head': head, 'src': head + open_ + item_src + close + tail,
+            'item': item, 'tail': tail, 'vars': False}
+
+
+SEQ_SITES = [
+    _seq_site('in items', 'dtml', 'A', '<dtml-in seq>', '[<dtml-var sequence-item>]', ('[', 0, ']'), '</dtml-in>', 'B'),
+    _seq_site('in items adjacent', 'dtml', '', '<dtml-in seq>', '<dtml-var sequence-item>', (0,), '</dtml-in>', ''),
+    _seq_site('in items entity', 'dtml', 'A', '<dtml-in seq>', '&dtml-sequence-item;,', (1, ','), '</dtml-in>', 'B'),
+    _seq_site('in items expr + hq', 'dtml', 'A', '<dtml-in seq>',
+              '(<dtml-var "_[\'sequence-item\']">=<dtml-var sequence-item html_quote>)', ('(', 0, '=', 1, ')'),
+              '</dtml-in>', 'B'),
+    _seq_site('in items full path', 'dtml', '', '<dtml-in seq>', '<dtml-var sequence-item missing=M>;', (0, ';'),
+              '</dtml-in>', ''),
+    _seq_site('in items fmt=html-quote', 'dtml', 'A', '<dtml-in seq>', '<dtml-var sequence-item fmt=html-quote>|',
+              (1, '|'), '</dtml-in>', 'B'),
+    _seq_site('in items reversed twice', 'dtml', 'A', '<dtml-in seq reverse>',
+              '<dtml-var sequence-item>/<dtml-var sequence-item>;', (0, '/', 0, ';'), '</dtml-in>', 'B'),
+    _seq_site('in items let', 'dtml', 'A', '<dtml-in seq>',
+              '<dtml-let y=sequence-item>{<dtml-var y>}</dtml-let>', ('{', 0, '}'), '</dtml-in>', 'B'),
+    _seq_site('ssi in items', 'ssi', 'A', '<!--#in seq-->', '[<!--#var sequence-item-->]', ('[', 0, ']'),
+              '<!--#/in-->', 'B'),
+    _seq_site('epfs in items', 'epfs', 'A', '%(in seq)[', '<%(sequence-item)s>', ('<', 0, '>'), '%(in seq)]', 'B'),
+    {'key': 'vars side by side', 'syntax': 'dtml', 'head': 'A', 'tail': 'B', 'item': (0, '|'), 'vars': '<dtml-var v%d>|'},
+    {'key': 'entities side by side', 'syntax': 'dtml', 'head': '', 'tail': '', 'item': (1, ' '), 'vars': '&dtml-v%d; '},
+    {'key': 'exprs adjacent', 'syntax': 'dtml', 'head': '', 'tail': '', 'item': (0,), 'vars': '<dtml-var "v%d">'},
+    {'key': 'epfs vars side by side', 'syntax': 'epfs', 'head': 'A', 'tail': 'B', 'item': (0, '|'), 'vars': '%%(v%d)s|'},
+]
+SEQ_SITE = {s['key']: s for s in SEQ_SITES}
+
+
+def seq_template(site, enc, n):
+    k = ('seq', site['key'], enc, n if site['vars'] else 0)
+    t = _site_cache.get(k)
+    if t is None:
+        if site['vars']:
+            src = site['head'] + ''.join(site['vars'] % i for i in range(n)) + site['tail']
+        else:
+            src = site['src']
+        t = _site_cache[k] = U.make_templates(src, {}, site['syntax'], enc)[0]
+    return t
+
+
+def seq_alternatives(site, accepts, reverse=False):
+    alts = []
+    for accept in (reversed(accepts) if reverse else accepts):
+        one = set()
+        for a in accept:
+            for esc in (U.esc_strict, U.esc_lenient):
+                one.add(''.join(p if isinstance(p, str) else (a if p == 0 else esc(a)) for p in site['item']))
+        alts.append(sorted(one))
+    return alts
+
+
+def history_plans(tier, rng, shard, nshards):
+    """Plans of this shard.  The grid part is enumerated and dealt out by index; the seeded part is
+    drawn from the shard's own generator."""
+    vsites = [s for s in VALUE_SITES]
+    encs = [None, 'latin-1', 'utf-16', 'utf-8', 'cp1252']
+    plans = []
+    idx = [0]
+
+    def add(family, setup, steps, flavour):
+        idx[0] += 1
+        if idx[0] % nshards == shard:
+            plans.append({'kind': 'history', 'family': family, 'flavour': flavour, 'setup': setup, 'steps': steps})
+
+    for fam, members in U.HISTORY_FAMILIES.items():
+        k = len(members)
+        is_exc = fam in U.EXCEPTION_FAMILIES
+        sites = [s['key'] for s in vsites if is_exc or not s['only_exc']]
+        persist_modes = (False,) if fam in U.DROP_FAMILIES else (True, False)
+        setup = [['m%d' % i, e] for i, e in enumerate(members)]
+        fwd = list(range(k))
+        orders = {'forward': fwd, 'reverse': fwd[::-1], 'twice': fwd + fwd, 'there and back': fwd + fwd[::-1]}
+        n = 0
+        for oname, order in orders.items():
+            for sk in sites:
+                for persist in persist_modes:
+                    n += 1
+                    enc = encs[n % len(encs)]
+                    ref = (lambda i: 'm%d' % i) if persist else (lambda i: members[i])
+                    add(fam, setup if persist else [], [['ins', ref(i), sk, enc] for i in order],
+                        '%s/%s' % (oname, 'same objects' if persist else 'fresh objects'))
+        # every ordered pair a, b, a
+        for i in range(k):
+            for j in range(k):
+                if i == j:
+                    continue
+                for sk in (sites if tier == 'thorough' else [sites[(n + i * k + j) % len(sites)]]):
+                    n += 1
+                    enc = encs[n % len(encs)]
+                    add(fam, [], [['ins', members[x], sk, enc] for x in (i, j, i)], 'pair a b a/fresh objects')
+        # one rendering with all of them
+        for ss in SEQ_SITES:
+            for oname in ('forward', 'reverse', 'there and back'):
+                n += 1
+                enc = encs[n % len(encs)]
+                add(fam, [], [['seq', [members[i] for i in orders[oname]], ss['key'], enc]], 'one rendering/' + oname)
+    for name, (setup, obj, muts) in U.HISTORY_MUTATIONS.items():
+        is_exc = obj == 'E'
+        n = 0
+        for s in vsites:
+            if s['only_exc'] and not is_exc:
+                continue
+            n += 1
+            enc = encs[n % len(encs)]
+            steps = [['ins', obj, s['key'], enc]]
+            for m in muts:
+                steps += [['do', m], ['ins', obj, s['key'], enc]]
+            add('mutated: ' + name, setup, steps, 'mutation between insertions')
+        for ss in SEQ_SITES:
+            # the same object several times in one rendering is one text; mutate between renderings
+            n += 1
+            enc = encs[n % len(encs)]
+            steps = [['seq', [obj, obj], ss['key'], enc]]
+            for m in muts:
+                steps += [['do', m], ['seq', [obj, obj], ss['key'], enc]]
+            add('mutated: ' + name, setup, steps, 'mutation between renderings')
+    # seeded: members of one or two families, sites and encodings changing from step to step
+    fams = list(U.HISTORY_FAMILIES)
+    for _ in range({'quick': 24, 'thorough': 400}[tier]):
+        chosen = rng.sample(fams, rng.choice([1, 1, 2]))
+        pool = [(f, e) for f in chosen for e in U.HISTORY_FAMILIES[f]]
+        steps = []
+        for _s in range(rng.randint(4, 24)):
+            f, e = rng.choice(pool)
+            if rng.random() < 0.15:
+                ss = rng.choice(SEQ_SITES)
+                steps.append(['seq', [rng.choice(pool)[1] for _i in range(rng.randint(2, 6))], ss['key'], rng.choice(encs)])
+                continue
+            cand = [s['key'] for s in vsites if not s['only_exc'] or f in U.EXCEPTION_FAMILIES]
+            steps.append(['ins', e, rng.choice(cand), rng.choice(encs)])
+        plans.append({'kind': 'history', 'family': '+'.join(sorted(chosen)), 'flavour': 'seeded walk',
+                      'setup': [], 'steps': steps})
+    return plans
+
+
+def history_case(ctx, mon, plan):
+    """Run one history; every insertion is judged against str(value) taken at that moment."""
+    env = U.history_env()
+    for name, expr in plan['setup']:
+        env[name] = eval(expr, env)
+    drop = plan['family'] in U.DROP_FAMILIES
+    earlier = []          # (value or None when dropped, class name, text at insertion time, id)
+    mutated = False
+    nontrivial = False
+    ctx.count('F:history sequences')
+    ctx.table('history family x flavour', '%s|%s' % (plan['family'] if plan['flavour'] != 'seeded walk' else 'seeded',
+                                                     plan['flavour']))
+
+    def note(v):
+        """Classify what this insertion has to tell apart from the sequence so far."""
+        nonlocal nontrivial
+        text = str(v) if not isinstance(v, BaseException) else repr(v)
+        kinds = set()
+        for (w, cname, wtext, wid) in earlier:
+            if w is None:
+                if cname == type(v).__name__ and wtext != text:
+                    kinds.add('fresh object after a dropped one of its class with another text')
+                    if wid == id(v):
+                        kinds.add('object at the address of a dropped one with another text (informational)')
+            elif w is v:
+                if wtext != text:
+                    kinds.add('same object, text changed since its earlier insertion')
+            elif type(w) is type(v) and U.confusable(w, v):
+                kinds.add('equal to an earlier value of its class that prints differently')
+            elif U.confusable(w, v):
+                kinds.add('equal to an earlier value of another class that prints differently')
+            elif isinstance(v, BaseException) and isinstance(w, BaseException) and w.args == v.args and wtext != text:
+                kinds.add('exception with arguments equal to an earlier one that reads differently')
+        for kd in kinds:
+            ctx.count('F:insertions ' + kd)
+            nontrivial = True
+        earlier.append((None if drop else v, type(v).__name__, text, id(v)))
+
+    def fail(i, what, detail, tag):
+        case = dict(plan)
+        case['fail_step'] = i
+        key = 'hist_%s_%s_%s' % (tag, plan['family'], plan['steps'][i][2] if plan['steps'][i][0] != 'do' else '')
+        key = ''.join(c if c.isalnum() or c in '-_.' else '_' for c in key)[:120]
+        ctx.violation(what, case, key=key, detail=detail)
+
+    for i, step in enumerate(plan['steps']):
+        if step[0] == 'do':
+            eval(step[1], env)
+            mutated = True
+            continue
+        if step[0] == 'ins':
+            _k, expr, sk, enc = step
+            site = VALUE_SITE[sk]
+            v = eval(expr, env)
+            if (site['by_name'] and callable(v)) or (site['only_exc'] and not isinstance(v, Exception)):
+                ctx.count('F:steps skipped (site does not take the value)')
+                continue
+            accept = U.value_texts_of(v, U.codec_of(enc))
+            expected = expected_renderings(site, accept)
+            note(v)
+            tmpl = site_template(site, enc)
+            ns = site_namespace(site, v)
+            mon.reset()
+            o = outcome(lambda: tmpl(None, ns))
+            ns = None
+            ctx.count('F:history insertions judged')
+            ctx.table('history site', sk)
+            detail = {'source': site['src'], 'value': expr, 'step': i, 'observed': show(o),
+                      'accepted': sorted(ascii(e) for e in expected)[:6],
+                      'steps so far': [ascii(st[1])[:60] for st in plan['steps'][:i + 1]][-12:]}
+            for msg in mon.bad:
+                fail(i, 'postcondition of a wrapped function failed: ' + msg[:200], detail, 'post')
+            if o[0] == 'raise':
+                fail(i, 'step %d of a history: inserting %s raised %s: %s (in %s) although str(value) works'
+                     % (i, expr[:60], type(o[1]).__name__, str(o[1])[:100], '/'.join(tb_tail(o[1]))), detail, 'raise')
+            elif not isinstance(o[1], str):
+                fail(i, 'step %d of a history: multi-piece rendering is %s, not text' % (i, type(o[1]).__name__),
+                     detail, 'type')
+            elif o[1] not in expected:
+                fail(i, 'step %d of a history: value %s inserted as %s; its str() form gives %s (earlier steps inserted '
+                     'other values in this process)' % (i, expr[:60], ascii(o[1])[:100],
+                                                        sorted(ascii(e) for e in expected)[:3]), detail, 'str')
+            o = None
+            v = None
+            continue
+        # one rendering of several values
+        _k, exprs, sk, enc = step
+        site = SEQ_SITE[sk]
+        vals = [eval(e, env) for e in exprs]
+        accepts = [U.value_texts_of(v, U.codec_of(enc)) for v in vals]
+        for v in vals:
+            note(v)
+        if site['vars']:
+            ns = {'v%d' % j: v for j, v in enumerate(vals)}
+        else:
+            ns = {'seq': list(vals)}
+        tmpl = seq_template(site, enc, len(vals))
+        alts = seq_alternatives(site, accepts, reverse='reverse>' in site.get('src', ''))
+        mon.reset()
+        o = outcome(lambda: tmpl(None, ns))
+        ns = None
+        vals = None
+        ctx.count('F:one-rendering sequences judged')
+        ctx.table('history site', 'seq: ' + sk)
+        detail = {'site': sk, 'values': [e[:60] for e in exprs], 'step': i, 'observed': show(o),
+                  'expected items': [a[:3] for a in alts][:12]}
+        for msg in mon.bad:
+            fail(i, 'postcondition of a wrapped function failed: ' + msg[:200], detail, 'post')
+        if o[0] == 'raise':
+            fail(i, 'step %d of a history: one rendering of %d values raised %s: %s (in %s)'
+                 % (i, len(exprs), type(o[1]).__name__, str(o[1])[:100], '/'.join(tb_tail(o[1]))), detail, 'seqraise')
+        elif not isinstance(o[1], str):
+            fail(i, 'step %d of a history: multi-piece rendering is %s, not text' % (i, type(o[1]).__name__),
+                 detail, 'seqtype')
+        elif not U.match_concat(o[1], site['head'], alts, site['tail']):
+            fail(i, 'step %d of a history: one rendering of %s gives %s, not the str() form of each value in turn'
+                 % (i, [e[:30] for e in exprs][:8], ascii(o[1])[:160]), detail, 'seqstr')
+        o = None
+    ctx.case(('history', plan['family'], plan['flavour'], repr(plan['steps'])), nontrivial)
+    if mutated:
+        ctx.count('F:histories with mutation between insertions')
 
 
 # ---------------------------------------------------------------- informational
@@ -640,6 +934,10 @@ def run(ctx, spec):
                     continue
                 value_case(ctx, mon, site, enc, recipe, sample=(n % 1511 == 7))
 
+    # ---- F: conversion histories (equal-but-differently-printing values, mutated and recycled objects)
+    for plan in history_plans(tier, rng, ctx.shard, ctx.nshards):
+        history_case(ctx, mon, plan)
+
     # ---- E: file-based template classes (created without any encoding: "UTF-8 by default")
     import shutil
     import tempfile
@@ -669,6 +967,8 @@ def run(ctx, spec):
         other_modifiers(ctx)
     reach.stop()
     reach.report(ctx)
+    for label in reach.absent:
+        ctx.count('reach: private anchor not present in this tree (diagnosis only):' + label)
 
 
 # ---------------------------------------------------------------- finish / replay
@@ -682,6 +982,19 @@ def finish(agg):
               'html_quote:bytes with encoding', 'html_quote:text'):
         if not c.get(k):
             inc.append('deciding counter is zero: ' + k)
+    for k in ('F:history insertions judged', 'F:one-rendering sequences judged',
+              'F:histories with mutation between insertions',
+              'F:insertions equal to an earlier value of its class that prints differently',
+              'F:insertions equal to an earlier value of another class that prints differently',
+              'F:insertions same object, text changed since its earlier insertion',
+              'F:insertions fresh object after a dropped one of its class with another text',
+              'F:insertions exception with arguments equal to an earlier one that reads differently'):
+        if not c.get(k):
+            inc.append('deciding counter is zero: ' + k)
+    hs = t.get('history site', {})
+    for sk in [v['key'] for v in VALUE_SITES] + ['seq: ' + v['key'] for v in SEQ_SITES]:
+        if not hs.get(sk):
+            inc.append('no history step through site ' + sk)
     if not (c.get('ustr:class', 0) + c.get('ustr:class raised', 0)):
         inc.append('ustr never saw a class')
     if not (c.get('ustr:exception', 0) + c.get('ustr:exception raised', 0)):
@@ -690,6 +1003,8 @@ def finish(agg):
         inc.append('ustr never saw a non-string value')
     for a in ANCHORS:
         if not c.get('reach:' + a):
+            if c.get('reach: private anchor not present in this tree (diagnosis only):' + a):
+                continue      # renamed private helper: the output comparisons above decide
             inc.append('anchor never entered: ' + a)
     for k in ('join_unicode', 'render_blocks', 'html_quote', 'ustr'):
         if not c.get('wrapper bindings:' + k):
@@ -726,6 +1041,9 @@ def replay(ctx, rep):
     c = rep['case']
     if c.get('kind') == 'value':
         value_case(ctx, mon, VALUE_SITE[c['site']], c['enc'], c['value'])
+        return
+    if c.get('kind') == 'history':
+        history_case(ctx, mon, {k: v for k, v in c.items() if k != 'fail_step'})
         return
     tmpdir = None
     if c.get('file'):
